@@ -541,6 +541,21 @@ def main():
     if not ok:
         log(out)
         log("harness does not build against /repo's working tree")
+        # is it the tree or the machinery?  When /repo itself compiles (library + hooks), the harness fails because
+        # something it calls changed (a public signature, a hook): the model/implementation correspondence can no
+        # longer be run on this tree, so the property is no longer shown to hold — reported as such, not as exit 2.
+        pr = run(["cargo", "build", "--offline", "--lib"], cwd=REPO, timeout=3600)
+        if pr.returncode == 0:
+            errs = [l for l in out.split("\n") if l.startswith("error")]
+            body = [f"property: {pid}", f"tier: {tier}", f"seed: {a.seed}", "kind: no-failing-input-found",
+                    "what: the property is no longer shown to hold: the correspondence harness (/verif/harness, which calls the",
+                    "      public API and the cfg-guarded hooks of this tree) does not compile against it although the library",
+                    "      itself does — something the harness calls changed; no operation could be run, so no failing input",
+                    "broken-correspondence: cargo build of /verif/harness :: " + "; ".join(errs[:6])[:900],
+                    "--- cargo output (tail) ---", out[-3000:]]
+            path = write_replay(pid, a.seed, "broken", "\n".join(body) + "\n")
+            print(f"VIOLATION property={pid} replay={path} no-failing-input-found")
+            sys.exit(1)
         sys.exit(2)
 
     # 3. correspondence + oracle
